@@ -140,7 +140,9 @@ var corruptKinds = []string{
 }
 
 func TestCorruption(t *testing.T) {
-	ev.Checks(5000, 8000)
+	// thorough: per shard (x16), built with -race
+	ev.Checks(5000, 2500)
+	resetBigBudget()
 
 	rapid.Check(t, func(rt *rapid.T) {
 		dir, err := os.MkdirTemp("", "c09-corrupt-")
